@@ -470,3 +470,67 @@ def canary_wrong_oracle(replay=None):
     solver = Solver(bootstrap_with=cnf_of(sm))
     bad = [s for s in itertools.product([False, True], repeat=2) if admits(sm, [l.v for l in lits], s, solver) != (sum(s) >= 1)]
     return dict(evaluations=1, distinct_nontrivial=2, failures=[dict(clause="canary", assignments=bad)] if bad else [], rule="canary", samples=[1])
+
+
+# ---- bounded leg: larger random inequalities (the exhaustive leg stops at 3-4 literals with coefficients in [-3, 3]) --------------------
+
+@contract(P, kind="enum", functions=[M + "satmanager.SATManager.pseudoboolencoding", M + "satmanager.SATManager._codifyrobdd", M + "pseudobool.Ineq.getrobdd",
+                                     M + "pseudobool.Ineq.isclause", M + "satmanager.SATManager.solve"],
+          scope="bounded: random inequalities of 4-8 literals over 4-7 variables (repeated variables, both polarities, literals on both sides), coefficients "
+                "in [-12, 12] incl. 0, bounds over the reachable range, 5 operators, both constructions; all 2^n assignments; one process per chunk (shared store)",
+          params=[dict(chunk=i) for i in range(8)])
+def larger_inequalities(chunk, replay=None):
+    import random
+    tier = os.environ.get("VERIF_TIER", "quick")
+    rng = random.Random(700 + chunk + 100 * int(os.environ.get("VERIF_SEED", "0") or 0))
+    n_cases = 200 if tier != "thorough" else 3000
+    failures, evals, nontriv, refused, samples, history = [], 0, 0, 0, [], []
+    if replay:
+        for h in replay.get("history", []):
+            check_one(h[0], [tuple(t) for t in h[1]], 0, [tuple(t) for t in h[2]], h[3], h[4], h[5])
+    for it in range(n_cases):
+        if replay:
+            nv, terms, rterms, b, op, dec = replay["nvars"], [tuple(t) for t in replay["terms"]], [tuple(t) for t in replay["rhs_terms"]], replay["bound"], replay["op"], replay["decomposition"]
+        else:
+            nv = rng.randint(4, 7)
+            shape = rng.choice(["general", "general", "equal_small", "sum_hits_bound", "big_and_small"])
+            k = rng.randint(4, 8)
+            if shape == "equal_small":
+                cs = [rng.choice([1, 2])] * k
+            elif shape == "big_and_small":
+                cs = [rng.choice([7, 9, 12]) for _ in range(2)] + [rng.choice([1, 1, 2]) for _ in range(k - 2)]
+            else:
+                cs = [rng.choice([-12, -7, -5, -3, -2, -1, 0, 1, 1, 2, 3, 4, 5, 8, 12]) for _ in range(k)]
+            atoms = [(rng.randrange(nv), rng.random() < 0.7, c) for c in cs]
+            nr = rng.choice([0, 0, 0, 1, 2])
+            terms, rterms = atoms[:len(atoms) - nr], atoms[len(atoms) - nr:]
+            lo = sum(min(0, c) for _, _, c in terms) - sum(max(0, c) for _, _, c in rterms)
+            hi = sum(max(0, c) for _, _, c in terms) - sum(min(0, c) for _, _, c in rterms)
+            if shape == "sum_hits_bound":      # the small coefficients add up exactly to the bound (the isclause shortcut's boundary)
+                small = sorted(abs(c) for _, _, c in terms)[:max(1, len(terms) - 1)]
+                b = sum(small)
+            else:
+                b = rng.randint(lo - 1, hi + 1)
+            op = rng.choice(list(OPS))
+            dec = rng.random() < 0.5
+        evals += 1
+        st, f = check_one(nv, terms, 0, rterms, b, op, dec, also_solve=(it % 3 == 0))
+        if st == "refused":
+            refused += 1
+        else:
+            nontriv += 1
+        if f:
+            f.update(nvars=nv, terms=terms, rhs_terms=rterms, bound=b, op=op, decomposition=dec, history=history[-4:])
+            failures.append(f)
+        if not samples and st == "encoded":
+            samples.append(dict(nvars=nv, terms=terms, rhs_terms=rterms, bound=b, op=op, decomposition=dec))
+        history.append((nv, terms, rterms, b, op, dec))
+        if len(failures) >= 4 or replay:
+            break
+    return dict(evaluations=evals, distinct_nontrivial=nontriv, exhaustive=False, failures=failures[:4],
+                rule="random inequalities  sum c_i*lit_i  op  sum d_j*lit_j + b  with 4-8 atoms over 4-7 variables (shapes: general coefficients in [-12, 12] "
+                     "incl. 0 and repeated variables; equal small coefficients; two big and several small ones; bounds equal to the sum of the small "
+                     "coefficients), built with the operator API and encoded under either construction in ONE process per chunk (the diagram store is shared "
+                     "by all of them); oracle as in the exhaustive leg: for all 2^n assignments the CNF under unit assumptions is satisfiable iff the "
+                     "assignment satisfies the constraint; every third case also through solve / value / evalexpr",
+                samples=samples, bound=f"{n_cases} inequalities per chunk", extra=dict(refused=refused))
